@@ -23,7 +23,7 @@ FILES = [
     "crates/parol/src/generators/grammar_config.rs",
 ]
 
-IDENT = re.compile(r"^[A-Za-z_][A-Za-z0-9_]*$")
+IDENT = re.compile(r"[A-Za-z_][A-Za-z0-9_]*\Z")
 UNRAWABLE = {"Self", "r#self", "r#crate", "r#super", "r#Self"}
 # names the generated trait module imports or defines itself (user type `Gr` in the harness)
 MODULE_NAMES = {"Result", "ParserError", "ParseTreeType", "UserActionsTrait", "GrTrait", "GrAuto"}
